@@ -203,9 +203,10 @@ package system
 //@   requires P1: a != nil && a.execute != nil && 0 <= index && index <= 4294967295
 //@   opt preserves heap(system.addresser), mem(net.Interface)
 //@   loop 1 invariant L0: ghost.execErr == nil
-//@   loop 1 invariant T1 [C13,C14]: len(addrs) == rangeindex + 1 && (addrs == nil || fresh(addrs)) && forall(k, 0, len(addrs), ipFrom(addrs[k], msgs[k]))
+//@   loop 1 invariant T1 [C13,C14]: 0 <= rangeindex + 1 && rangeindex + 1 <= len(msgs) && len(addrs) == rangeindex + 1 && (addrs == nil || fresh(addrs)) && forall(k, 0, len(addrs), ipFrom(addrs[k], msgs[k]))
 //@   opt nobreak [C13,C14]
-//@   ensures E3 [C13,C14]: result1 == nil ==> len(result0) == len(msgs) && forall(k, 0, len(result0), ipFrom(result0[k], msgs[k]))
+//@   ensures E3 [C13,C14]: result1 == nil ==> forall(k, 0, len(result0), k < len(msgs) && ipFrom(result0[k], msgs[k]))
+//@   ensures E4 [C13,C14]: result1 == nil && len(result0) > 0 ==> len(result0) == len(msgs)
 //@   assigns everything
 //@   ensures E1 [C13,C14]: ghost.execErr != nil ==> result1 != nil && len(result0) == 0
 //@   ensures E2 [C13,C14]: result1 != nil ==> result1 == ghost.execErr
